@@ -82,6 +82,9 @@ type L2Options struct {
 	WithFault bool
 	// GasLimit > 0 gives every delivered message a finite gas meter of that size.
 	GasLimit uint64
+	// FromGenesis starts the chain the way a real one starts: through InitGenesis with the default
+	// genesis state (sequence counters stored explicitly) instead of an empty store with parameters.
+	FromGenesis bool
 }
 
 // NewL2 builds a fresh L2 environment.
@@ -170,6 +173,11 @@ func NewL2(opt L2Options) *L2 {
 	params.BridgeExecutors = opt.Executors
 	if err := k.SetParams(ctx, params); err != nil {
 		panic(err)
+	}
+	if opt.FromGenesis {
+		gs := opchildtypes.DefaultGenesisState()
+		gs.Params = params
+		k.InitGenesis(ctx, gs)
 	}
 	ms2 := opchildkeeper.NewMsgServerImpl(k)
 	opchildtypes.RegisterMsgServer(router, ms2)
